@@ -1168,6 +1168,10 @@ def solve(objfun, x0, h=None, lh=None, prox_uh=None, argsf=(), argsh=(), argspro
             if do_logging:
                 module_logger.info("Unsuccessful run with new f = %s compared to old f = %s" % (objmin2, objmin))
 
+    if exit_info.flag == EXIT_AUTO_DETECT_RESTART_WARNING:
+        # A restart was called for but cannot be done (budget exhausted): report that, not the internal restart flag
+        exit_info = ExitInformation(EXIT_MAXFUN_WARNING, "Objective has been called MAXFUN times")
+
     if nruns - last_successful_run >= params("restarts.max_unsuccessful_restarts"):
         exit_info = ExitInformation(EXIT_SUCCESS, "Reached maximum number of unsuccessful restarts")
 
